@@ -397,3 +397,35 @@ def check_parentheses(ctx, target: str, rule: str) -> None:
 
 def _show_template(text: str) -> str:
     return re.sub("\x00(\\d+)\x00", lambda m_: "{" + m_.group(1) + "}", text).replace("\n", "\\n")[:80]
+
+
+# Kinds of nodes that are emitted as an infix/prefix operator expression in every target: they may never be listed among the
+# kinds whose code is inserted without parentheses.  A comparison binds tighter than and/or, so it may be bare there only.
+NEVER_BARE = {"Add", "Sub", "And", "Or", "Not", "Implication", "IsNone", "IsNotNone"}
+COMPARISON_BARE_IN = {"transform_and", "transform_or", "_transform_and_or_or"}
+# targets in which membership / quantifiers are emitted as infix or keyword expressions, not as calls
+INFIX_IS_IN = {"python"}
+
+
+def check_bare_kinds(ctx, target: str, rule: str) -> None:
+    """Every ``no_parentheses*`` tuple of a transpiler lists only node kinds whose generated code is atomic in the context of the
+    method (call-like or primary expressions)."""
+    ci = transpiler_class(ctx, target)
+    n = 0
+    for name, m in ci.methods.items():
+        for a in ast.walk(m.node):
+            if not (isinstance(a, ast.Assign) and isinstance(a.targets[0], ast.Name) and a.targets[0].id.startswith("no_parentheses") and isinstance(a.value, ast.Tuple)):
+                continue
+            n += 1
+            kinds = {(dotted_of(e) or "").split(".")[-1] for e in a.value.elts}
+            bad = sorted(kinds & NEVER_BARE)
+            if "Comparison" in kinds and name not in COMPARISON_BARE_IN:
+                bad.append("Comparison")
+            if "IsIn" in kinds and target in INFIX_IS_IN:
+                bad.append("IsIn")
+            what = f"{target}: {name}: kinds emitted without parentheses are atomic in this context"
+            if bad:
+                ctx.fail(rule, m, a, f"{target}: {name} inserts the code of {bad} operands without parentheses; these are operator expressions of equal or lower precedence, so e.g. `a - (b + c)` is generated as `a - b + c`", construct=what)
+            else:
+                ctx.ok(rule, m, a, what=what)
+    ctx.require_anchor(n >= 3, f"{target}: the transpiler has no_parentheses kind tuples")
